@@ -4485,7 +4485,7 @@ def _match__inside_list_quantifier(
             count += 1
 
         else:
-            if static_tags := pat.static_tags:
+            if (static_tags := pat.static_tags) and not (tagss and tagss[-1] is static_tags):  # only once, the maximum may be reached too
                 tagss.append(static_tags)
 
                 if not pat_tag:  # if no pat_tag then inserting matches directly into tagss and need to insert them before the static_tags dict
